@@ -767,6 +767,7 @@ func ruleC07OpsCase(p *Prog, a *Anchors, r *Report, levels map[string]*gramLevel
 			r.Bad("power:^", p.Pos(f.Pos()), "power node does not call math.Pow")
 		}
 	}
+	ruleC07PowInt(p, r)
 }
 
 func isNumeric(T types.Type) bool {
@@ -1479,5 +1480,42 @@ func ruleC07Bool(p *Prog, a *Anchors, r *Report) {
 	}
 	if n == 0 {
 		r.Unk("simpleExpression:not:bool", p.Pos(f.Pos()), "cannot find the value computed on the `negate` edge of (*simpleExpression).Evaluate")
+	}
+}
+
+// ruleC07PowInt: "integer arithmetic on integers" also for ^: the power node has a path that yields an integer-typed
+// value (for two integer operands); computing every power in float prints 2 ^ 3 as 8.000000.
+func ruleC07PowInt(p *Prog, r *Report) {
+	f := p.Method("power", "Evaluate")
+	if f == nil {
+		r.Unk("power:^ int", "-", "anchor unresolved: (*power).Evaluate")
+		return
+	}
+	hasInt, hasFloat := false, false
+	for _, ret := range returnsOf(f) {
+		c, ok := res(ret, 0).(*ssa.Call)
+		if !ok || c.Common().StaticCallee() == nil || c.Common().StaticCallee().Name() != "AsValue" || len(c.Common().Args) != 1 {
+			continue
+		}
+		arg := c.Common().Args[0]
+		if mi, isMI := arg.(*ssa.MakeInterface); isMI {
+			arg = mi.X
+		}
+		if bt, isB := arg.Type().Underlying().(*types.Basic); isB {
+			if bt.Info()&types.IsInteger != 0 {
+				hasInt = true
+			}
+			if bt.Info()&types.IsFloat != 0 {
+				hasFloat = true
+			}
+		}
+	}
+	switch {
+	case hasInt && hasFloat:
+		r.OK("power:^ int", p.Pos(f.Pos()), "^ yields an integer on one path and a float on another (integer arithmetic on integers)")
+	case hasFloat:
+		r.Bad("power:^ int", p.Pos(f.Pos()), "^ computes every power in float: {{ 2 ^ 3 }} prints 8.000000 although both operands are integers (\"integer arithmetic on integers\")")
+	default:
+		r.Unk("power:^ int", p.Pos(f.Pos()), "cannot recognise what (*power).Evaluate returns")
 	}
 }
